@@ -113,6 +113,9 @@ pub enum Expr {
     SelfSym,
     /// push a diagnostic, return the value
     Acc(Box<Expr>),
+    /// value-controlled but monotone branch: `let c = n(); if c == 0 { (m() & g) | g } else { c | g }`
+    /// (equals `n() | g`; `m` is only consulted while `n` is still at bottom)
+    PeekZ(NodeId, NodeId, Box<Expr>),
 }
 
 #[derive(Clone, PartialEq, Eq, Debug, Hash)]
@@ -168,6 +171,7 @@ impl fmt::Display for Expr {
             Expr::OnSym(e) => write!(f, "on_sym({e})"),
             Expr::SelfSym => write!(f, "self.v"),
             Expr::Acc(e) => write!(f, "acc({e})"),
+            Expr::PeekZ(n, m, g) => write!(f, "peekz(n{n},n{m},{g})"),
         }
     }
 }
@@ -322,6 +326,8 @@ pub struct GenCfg {
 
 #[derive(Clone, Debug)]
 pub struct CycCfg {
+    /// allow value-controlled monotone branches (`PeekZ`)
+    pub peek: bool,
     pub kinds: Vec<(Kind, u32)>,
     /// allow non-monotone ops (xor / andnot / add) inside cycles
     pub nonmonotone: bool,
@@ -603,12 +609,31 @@ pub fn gen_prog(rng: &mut Rng, cfg: &GenCfg) -> Prog {
 /// Cyclic programs over a bit-set lattice. Node bodies are unions/intersections of
 /// input masks and calls to *any* node (including later ones and itself), with
 /// input-controlled branches so that cycles appear and disappear with writes.
+/// marker trick: a trailing `Kind::Maker` entry in the kinds slice enables `PeekZ` generation
+fn nonmono_peek(kinds: &[Kind]) -> bool {
+    kinds.last() == Some(&Kind::Maker)
+}
+
 fn gen_cyclic(rng: &mut Rng, cfg: &GenCfg, c: &CycCfg) -> Prog {
     let n = rng.range(cfg.min_nodes, cfg.max_nodes);
     let ncells = rng.range(2, cfg.max_cells.max(2));
     let mask = ((1u32 << c.bits) - 1) as u16;
-    let kinds: Vec<Kind> = (0..n).map(|_| pick_weighted(rng, &c.kinds)).collect();
+    let mut kinds: Vec<Kind> = (0..n).map(|_| pick_weighted(rng, &c.kinds)).collect();
+    if c.peek {
+        kinds.push(Kind::Maker);
+    }
     fn e(rng: &mut Rng, n: usize, ncells: usize, mask: u16, depth: usize, nonmono: bool, kinds: &[Kind]) -> Expr {
+        if nonmono_peek(kinds) && rng.chance(1, 7) {
+            return Expr::PeekZ(
+                rng.below(n),
+                rng.below(n),
+                Box::new(Expr::Bin(
+                    Op::And,
+                    Box::new(Expr::In(rng.below(ncells), rng.below(2))),
+                    Box::new(Expr::Const(mask)),
+                )),
+            );
+        }
         if depth == 0 {
             return match rng.below(10) {
                 0..=4 => Expr::Call(rng.below(n)),
@@ -653,8 +678,11 @@ fn gen_cyclic(rng: &mut Rng, cfg: &GenCfg, c: &CycCfg) -> Prog {
             _ => e(rng, n, ncells, mask, 0, nonmono, kinds),
         }
     }
+    if c.peek && rng.chance(1, 8) {
+        return tmpl_relay(rng, mask, &kinds);
+    }
     let mut nodes = Vec::new();
-    for &kind in kinds.iter() {
+    for &kind in kinds.iter().take(n) {
         let depth = rng.range(1, cfg.max_depth);
         let body = e(rng, n, ncells, mask, depth, c.nonmonotone, &kinds);
         nodes.push(Node {
@@ -667,6 +695,58 @@ fn gen_cyclic(rng: &mut Rng, cfg: &GenCfg, c: &CycCfg) -> Prog {
     Prog {
         nodes,
         ncells,
+        nunt: 0,
+        on_ent: Expr::Const(0),
+        on_sym: Expr::Const(0),
+        spec: Expr::Const(0),
+    }
+}
+
+/// Template seeded from a known-tricky shape: a head that consults a relay only while its own
+/// copy is still at bottom (so the relay is left as a stale provisional memo), plus a second
+/// cycle reading the relay from outside. Constants, masks and node kinds are random.
+fn tmpl_relay(rng: &mut Rng, mask: u16, kinds: &[Kind]) -> Prog {
+    let kind = |rng: &mut Rng| -> Kind {
+        let ks: Vec<Kind> = kinds.iter().copied().filter(|k| *k != Kind::Maker).collect();
+        *rng.pick(&ks)
+    };
+    let inm = |c: usize, f: usize| {
+        Expr::Bin(Op::And, Box::new(Expr::In(c, f)), Box::new(Expr::Const(mask)))
+    };
+    let mk = |kind: Kind, body: Expr| Node {
+        kind,
+        body,
+        mk: vec![],
+        fb: 0,
+    };
+    // n0 head, n1 head_copy, n2 relay, n3 down, n4 down_copy
+    let mut nodes = vec![
+        mk(kind(rng), Expr::PeekZ(1, 2, Box::new(inm(0, 0)))),
+        mk(kind(rng), Expr::Call(0)),
+        mk(
+            kind(rng),
+            Expr::Bin(Op::And, Box::new(Expr::Call(0)), Box::new(inm(0, 1))),
+        ),
+        mk(
+            kind(rng),
+            Expr::Bin(Op::Or, Box::new(Expr::Call(4)), Box::new(Expr::Call(2))),
+        ),
+        mk(
+            kind(rng),
+            Expr::Bin(Op::And, Box::new(Expr::Call(3)), Box::new(inm(1, 0))),
+        ),
+    ];
+    if rng.chance(1, 2) {
+        // an extra reader
+        let t = rng.below(5);
+        nodes.push(mk(
+            kind(rng),
+            Expr::Bin(Op::Or, Box::new(Expr::Call(t)), Box::new(inm(1, 1))),
+        ));
+    }
+    Prog {
+        nodes,
+        ncells: 2,
         nunt: 0,
         on_ent: Expr::Const(0),
         on_sym: Expr::Const(0),
@@ -757,6 +837,15 @@ pub fn gen_history(rng: &mut Rng, cfg: &GenCfg, prog: &Prog) -> Vec<Step> {
                 h.push(Step::Evict);
             } else {
                 h.push(Step::SetLru(rng.below(6)));
+            }
+        } else if cfg.cyclic.is_some() && rng.chance(1, 3) {
+            // request every node in a random order (all entry orders get explored)
+            let mut order: Vec<usize> = (0..prog.nodes.len()).collect();
+            for i in (1..order.len()).rev() {
+                order.swap(i, rng.below(i + 1));
+            }
+            for n in order {
+                h.push(Step::Req(Req::Node(n)));
             }
         } else {
             // burst of requests
